@@ -4,6 +4,7 @@ import (
 	"fmt"
 	"go/token"
 	"go/types"
+	"strings"
 
 	"golang.org/x/tools/go/ssa"
 )
@@ -217,6 +218,69 @@ func runC11(r *Run) {
 		})
 	}
 	wr.Done()
+
+	// ---- no write for a transaction that may already be over
+	ww := r.Rule("C11.writewindow", "a request is written before its transaction is published (registered in the client table and armed in the agent), or under the lock that completions take: otherwise a response, the final timeout or Close can end the transaction between publication and the write, and the request is written for a transaction that is over", 2)
+	for _, fn := range []*ssa.Function{m.Start, m.Callback} {
+		if fn == nil {
+			continue
+		}
+		li := computeLocks(fn)
+		isWrite := func(in ssa.Instruction) bool {
+			ci, ok := in.(ssa.CallInstruction)
+			if !ok {
+				return false
+			}
+			cc := ci.Common()
+			if cc.IsInvoke() && cc.Method.Name() == "Write" && valueIsLoadOfField(cc.Value, m.Conn) {
+				return true
+			}
+			if !cc.IsInvoke() {
+				for _, a := range cc.Args {
+					if mi, ok := a.(*ssa.ChangeInterface); ok && valueIsLoadOfField(mi.X, m.Conn) {
+						if sc := cc.StaticCallee(); sc != nil && sc.Name() != "ReadFrom" {
+							return true
+						}
+					}
+				}
+			}
+			return false
+		}
+		rep := map[ssa.Instruction]bool{}
+		nW := 0
+		q := &PathQuery{P: p, Fn: fn}
+		q.Step = func(in ssa.Instruction, deferred bool, st uint64, c *PathCtx) (uint64, bool) {
+			if callsFn(in, m.Reg) {
+				return st | 1, false
+			}
+			if !isWrite(in) {
+				return st, false
+			}
+			if st&1 == 0 || rep[in] {
+				return st, false
+			}
+			held := li.Held(in)
+			for obj, mode := range held {
+				if mode == "W" && strings.HasSuffix(obj, "."+m.Mux.Name()) {
+					return st, false
+				}
+			}
+			rep[in] = true
+			ww.ViolationPath(fn, instrPos(in), "write after the transaction was published", "the transaction is in the client table (and armed in the agent) before the request is written and nothing excludes its completion meanwhile: a response, the final timeout or Close handled in that window ends it, and the request is then written for a transaction that is already over", c.Witness(fn, in))
+			return st, false
+		}
+		q.Run()
+		eachInstr(fn, func(b *ssa.BasicBlock, i int, in ssa.Instruction) {
+			if isWrite(in) {
+				nW++
+			}
+		})
+		ww.Instance(fnName(fn)+"|writes", true, map[string]int{"write_sites": nW, "after_publication": len(rep)})
+	}
+	ww.Done()
+
+	// ---- the callback completes a re-published transaction only if its own removal found it (shared with C10)
+	r.Borrow("C10", map[string]string{"C10.removal": "C11.removal"})
 
 	// ---- count
 	ct := r.Rule("C11.count", "every path of the callback to the retransmission write passes attempt < maxAttempts and event.Error != nil and exactly one increment of the attempt counter; Start resets the counter; WithNoRetransmit stores maxAttempts = 0", 3)
